@@ -13,6 +13,7 @@ import (
 	"pgregory.net/rapid"
 
 	"verif/harness/internal/ev"
+	"verif/harness/internal/gen"
 )
 
 func TestMain(m *testing.M) {
@@ -59,6 +60,19 @@ func init() {
 		add(p - 1)
 		add(p)
 		add(p + 1)
+	}
+	// float64 rounding ties and their neighbours (even and odd mantissa) at 64, 63 and 54 bits
+	for _, base := range []uint64{1 << 63, 1<<63 + 2048, 1<<64 - 4096, 1 << 62, 1<<62 + 1024, 1 << 53, 1<<53 + 2} {
+		ulp := uint64(2048)
+		if base < 1<<63 {
+			ulp = 1024
+		}
+		if base < 1<<62 {
+			ulp = 2
+		}
+		add(base + ulp/2 - 1)
+		add(base + ulp/2)
+		add(base + ulp/2 + 1)
 	}
 	add(6074001000) // ~ sqrt(2^65)
 	add(3037000499) // isqrt(2^63)
@@ -126,10 +140,24 @@ type gctx struct {
 }
 
 func genU(rt *rapid.T, g *gctx, label string) uint64 {
-	switch rapid.IntRange(0, 9).Draw(rt, label+"_kind") {
+	switch rapid.IntRange(0, 10).Draw(rt, label+"_kind") {
 	case 0, 1, 2, 3, 4:
 		g.pooled = true
 		return rapid.SampledFrom(intPool).Draw(rt, label)
+	case 10:
+		// at or next to a float64 rounding tie: 54..64 significant bits, the bits below the 53-bit mantissa are
+		// exactly half a unit in the last place, or one less or one more (even and odd mantissas)
+		g.pooled = true
+		l := gen.Uniform(rt, 54, 64, label+"_len")
+		mant := uint64(1)<<52 | rapid.Uint64Range(0, 1<<52-1).Draw(rt, label+"_mant")
+		if gen.Chance(rt, 50, label+"_odd") {
+			mant |= 1
+		} else {
+			mant &^= 1
+		}
+		shift := uint(l - 53)
+		low := uint64(1)<<(shift-1) + uint64(gen.Uniform(rt, 0, 2, label+"_d")) - 1
+		return mant<<shift + low
 	case 5, 6:
 		return rapid.Uint64().Draw(rt, label)
 	case 7:
